@@ -568,6 +568,16 @@ func (s *Stage) Recover() {
 			defer wg.Done()
 			for f := range ch {
 				finalFile := s.partialToFinal(f)
+				if known := s.fromCache(finalFile.path); known != nil &&
+					known.state >= stateFinalized && known.hash == finalFile.hash {
+					// What is left of a retransmission that was being discarded
+					// as a duplicate when we went down: this version is
+					// delivered and logged already
+					s.logInfo("Ignoring duplicate (recover):", finalFile.name)
+					os.Remove(finalFile.path + fullExt)
+					os.Remove(finalFile.path + compExt)
+					continue
+				}
 				s.toCache(finalFile, stateReceived)
 				s.process(finalFile)
 			}
